@@ -251,8 +251,7 @@ Qed.
 Lemma norm_any_ty_fixed : forall H a, (forall us, a <> ATime us) -> forall a', norm_any H a = Ok a' -> atom_ty a' = atom_ty a.
 Proof.
   intros H a Hnt a' E. destruct a; cbn [norm_any] in E; try (exfalso; eapply Hnt; reflexivity);
-    try (injection E as E; subst a'; reflexivity);
-    destruct (o_trunc H); try discriminate; injection E as E; subst a'; reflexivity.
+    injection E as E; subst a'; reflexivity.
 Qed.
 
 Lemma dt_changed_mono : forall u1 o1 u2 o2,
@@ -295,10 +294,10 @@ Proof.
         destruct Ht as [Ht|Ht]; [left; exact Ht|right; exact Ht]. }
   (* a datetime against something else (use_enum_value / the numeric group): the pair is always reported *)
   all: cbn [norm_any bind trunc_pair] in *.
-  all: (destruct Ht as [Ht|[Hn He]];
-        [|exfalso; eapply (reach_mixed_absurd _ _ Hn He Hr); reflexivity]).
-  all: rewrite <- Ht in HG'; destruct (o_trunc F); cbn [bind] in *; try discriminate;
-       injection HF' as HF'; injection HG' as HG'; subst eG; refine (rep_atoms_mono _ _ _ _ _ _ _ _ _ _ _ _ HF'); reflexivity.
+  (* since 1c8f0f8 only a time is changed by datetime_normalize: every other operand is reported as it is *)
+  all: try (injection HF' as HF'; injection HG' as HG'; subst eG; refine (rep_atoms_mono _ _ _ _ _ _ _ _ _ _ _ _ HF'); reflexivity).
+  destruct Ht as [Ht|[Hn He]]; [|exfalso; eapply (reach_mixed_absurd _ _ Hn He Hr); reflexivity].
+  rewrite <- Ht in HG'. injection HF' as HF'. injection HG' as HG'. subst eG. refine (rep_atoms_mono _ _ _ _ _ _ _ _ _ _ _ _ HF'); reflexivity.
 Qed.
 
 (* ---- date / time / timedelta ---- *)
@@ -326,7 +325,13 @@ Proof.
     + (* truncation added *)
       destruct Ht as [Ht|Ht]; [congruence|].
       destruct a as [| ba | za | ma ea | sa | sa | u1 o1 | ia | ma ea | ya moa da | ua | ua | cla na oa va]; cbn [time_kind] in Hk; try discriminate.
-      * cbn [norm_any] in HG'. rewrite EtG in HG'. discriminate.
+      * (* a date / timedelta is left alone by datetime_normalize (1c8f0f8): the same comparison as without truncation *)
+        assert (norm_any G b = Ok b) as Nb.
+        { destruct b; try reflexivity; cbn [trunc_pair] in Ht; destruct Ht as [Hn He]; exfalso;
+            eapply (reach_mixed_absurd _ _ Hn He Hr); reflexivity. }
+        cbn [norm_any] in HG'. change (norm_any G b) with (norm_any G b) in HG'. rewrite Nb in HG'. cbn [bind] in HG'.
+        injection HG' as HG'. subst eG.
+        destruct (py_ne _ b); [refine (rep_atoms_mono _ _ _ _ _ _ _ _ _ _ _ _ HF'); reflexivity|reflexivity].
       * destruct b as [| bb | zb | mb eb | sb | sb | u2 o2 | ib | mb eb | yb mob db | ub | ub | clb nb ob vb]; cbn [trunc_pair] in Ht;
           try (destruct Ht as [Hn He]; exfalso; eapply (reach_mixed_absurd _ _ Hn He Hr); reflexivity).
         cbn [norm_any bind] in HG'. injection HG' as HG'. subst eG.
@@ -334,7 +339,13 @@ Proof.
         -- exfalso. eapply (rep_atoms_nonempty KValue p1 p2 (ATime ua) (ATime ub)); [|exact HF']. cbn [atom_ty] in *. rewrite Hex. reflexivity.
         -- unfold py_ne in Ene. cbn [is_nan orb] in Ene. apply negb_false_iff in Ene. unfold py_eq in Ene. cbn [qv num_of] in Ene.
            apply Z.eqb_eq in Ene. subst ub. rewrite py_ne_time_secs. reflexivity.
-      * cbn [norm_any] in HG'. rewrite EtG in HG'. discriminate.
+      * (* a date / timedelta is left alone by datetime_normalize (1c8f0f8): the same comparison as without truncation *)
+        assert (norm_any G b = Ok b) as Nb.
+        { destruct b; try reflexivity; cbn [trunc_pair] in Ht; destruct Ht as [Hn He]; exfalso;
+            eapply (reach_mixed_absurd _ _ Hn He Hr); reflexivity. }
+        cbn [norm_any] in HG'. change (norm_any G b) with (norm_any G b) in HG'. rewrite Nb in HG'. cbn [bind] in HG'.
+        injection HG' as HG'. subst eG.
+        destruct (py_ne _ b); [refine (rep_atoms_mono _ _ _ _ _ _ _ _ _ _ _ _ HF'); reflexivity|reflexivity].
     + injection HG' as HG'. subst eG. destruct (py_ne a b); [|reflexivity]. refine (rep_atoms_mono _ _ _ _ _ _ _ _ _ _ _ _ HF'); reflexivity.
 Qed.
 
